@@ -40,10 +40,12 @@ def generate(name, consts, wd, simulate=None, depth=None, seed=None, timeout=180
     """E1: model-check the design-level properties and emit every transition."""
     text = tlc.make_cfg(consts, invariants=MODEL_INVARIANTS, properties=[] if simulate else MODEL_PROPERTIES,
                         constraint="Bound", action_constraint="Emit", view="View")
+    index = explore.TransIndex()
     res = tlc.run_tlc("MC_Struct", text, wd, workers=1, tag=f"gen-{name}", simulate=simulate,
-                      depth=depth, seed=seed, timeout=timeout)
-    if not res["json"]:
+                      depth=depth, seed=seed, timeout=timeout, on_json=index.add, keep_stdout=False)
+    if not index.n:
         raise Machinery(f"generator {name} emitted nothing")
+    res["index"] = index
     return res
 
 
@@ -84,41 +86,49 @@ def run_config(run: Run, prop, name, consts, wd, *, caching=False, simulate=None
     t1 = _t.time()
     run.add_model(name + ("+cache" if caching else ""), gen,
                   {k: (sorted(v) if isinstance(v, set) else v) for k, v in consts.items()})
-    calls_at, states = explore.parse_transitions(gen["json"])
+    index = gen.pop("index")
     init = base_state(consts)
-    if W.key(init) not in states:
+    if W.key(init) not in index:
         raise Machinery("executor's initial projection is not the model's initial state")
-    records, confirmed, st = explore.explore(consts, init, calls_at, states, caching=caching)
+    agg = {"skipped_pre": 0, "skipped_domain": 0, "bad": 0, "judge_s": 0.0, "nontrivial": set(), "chunks": 0, "sample": None}
+    confirmed_ref = {}
+
+    def sink(records):
+        tj = _t.time()
+        agg["chunks"] += 1
+        verdicts = judge(prop, consts, records, wd, f"{name}-{agg['chunks']}")
+        agg["judge_s"] += _t.time() - tj
+        by_id = {r["id"]: r for r in records}
+        for v in verdicts:
+            r = by_id[v["id"]]
+            if "skip" in v:
+                agg["skipped_" + v["skip"]] += 1
+                continue
+            agg["bad"] += 1
+            sig = f"{r['cls']}|{'+'.join(sorted(v['fail']))}"
+            run.violation(sig, f"{r['c']['op']}{r['c']['a']} violates {'+'.join(sorted(v['fail']))}",
+                          {"kind": "structural", "config": name,
+                           "consts": {k: (sorted(x) if isinstance(x, set) else x) for k, x in consts.items()},
+                           "caching": caching, "path": confirmed_ref["c"].get(W.key(r["pre"])), "call": r["c"],
+                           "observed": {"pre": r["pre"], "res": r["res"], "post": r["post"]},
+                           "fail": v["fail"], "expected": v.get("exp")})
+        for r in records:
+            run.count_class(r["cls"])
+            if r["pre"] != r["post"] or r["res"]["err"]:
+                agg["nontrivial"].add(r["cls"])
+        run.traces += len(records)
+        run.evaluations += len(records)
+        if agg["sample"] is None and records:
+            r = records[len(records) // 2]
+            agg["sample"] = True
+            run.sample({"config": name, "caching": caching, "pre": r["pre"], "call": r["c"], "res": r["res"], "post": r["post"]})
+
+    # explore shares its `confirmed` map through confirmed_ref, so the sink can attach replay paths
+    records, confirmed, st = explore.explore(consts, init, index, index, caching=caching, sink=sink,
+                                             confirmed_out=confirmed_ref)
     t2 = _t.time()
-    verdicts = judge(prop, consts, records, wd, name)
-    t3 = _t.time()
-    by_id = {r["id"]: r for r in records}
-    skipped = {"pre": 0, "domain": 0}
-    bad = 0
-    for v in verdicts:
-        r = by_id[v["id"]]
-        if "skip" in v:
-            skipped[v["skip"]] += 1
-            continue
-        bad += 1
-        sig = f"{r['cls']}|{'+'.join(sorted(v['fail']))}"
-        path = None
-        # the confirming path of the pre-state
-        path = confirmed.get(W.key(r["pre"]))
-        run.violation(sig, f"{r['c']['op']}{r['c']['a']} violates {'+'.join(sorted(v['fail']))}",
-                      {"kind": "structural", "config": name, "consts": {k: (sorted(x) if isinstance(x, set) else x) for k, x in consts.items()},
-                       "caching": caching, "path": path, "call": r["c"],
-                       "observed": {"pre": r["pre"], "res": r["res"], "post": r["post"]},
-                       "fail": v["fail"], "expected": v.get("exp")})
-    for r in records:
-        run.count_class(r["cls"])
-    run.traces += len(records)
-    run.evaluations += len(records)
-    if records:
-        r = records[len(records) // 2]
-        run.sample({"config": name, "caching": caching, "pre": r["pre"], "call": r["c"], "res": r["res"], "post": r["post"]})
-    st.update({"skipped_pre_not_invariant": skipped["pre"], "skipped_out_of_domain": skipped["domain"],
-               "records_failing": bad, "t_generate_s": round(t1 - t0, 1), "t_execute_s": round(t2 - t1, 1),
-               "t_judge_s": round(t3 - t2, 1)})
+    st.update({"skipped_pre_not_invariant": agg["skipped_pre"], "skipped_out_of_domain": agg["skipped_domain"],
+               "records_failing": agg["bad"], "t_generate_s": round(t1 - t0, 1),
+               "t_execute_and_judge_s": round(t2 - t1, 1), "t_judge_s": round(agg["judge_s"], 1)})
     run.extra.setdefault("executions", []).append({"config": name, "caching": caching, **st})
-    return records, st
+    return agg["nontrivial"], st
